@@ -527,10 +527,100 @@ impl Check for PathProp {
             }
             "C02" => {
                 with_setup_histories(&mut scn, &mut rng, o.max_iters);
+                // start rotations written with seven decimals (|q|^2 off 1 by about 1e-7): the
+                // constructors do not normalise, and the path has to begin with the start state
+                // as given, bit for bit — not with a tidied copy of it
+                let mut rng2 = Xo::new(mix(seed, "C02-decimal-quaternion", index));
+                if crate::spaces::has_so3(&scn.space) && rng2.chance(0.3) {
+                    let lay = crate::spaces::layout(&scn.space);
+                    let mut geo = crate::spaces::geo_for(&scn.space).unwrap();
+                    geo.set_worlds(&scn.worlds);
+                    for pi in 0..scn.problems.len() {
+                        if scn.problems[pi].space.is_some() {
+                            continue;
+                        }
+                        let mut s = scn.problems[pi].starts[0].clone();
+                        for (k, c) in lay.iter().enumerate() {
+                            if matches!(c, crate::spaces::Comp::SO3) {
+                                let off = crate::spaces::comp_offset(&lay, k);
+                                for x in &mut s[off..off + 4] {
+                                    *x = (*x * 1e7).round() / 1e7;
+                                }
+                            }
+                        }
+                        let w = scn.problems[pi].world;
+                        if geo.valid(w, &scn.problems[pi].starts[0]) && geo.valid(w, &s) && geo.in_bounds(&s) {
+                            scn.problems[pi].starts[0] = s;
+                            scn.params.insert("decimal_start_quaternion".into(), 1.0);
+                        }
+                    }
+                }
             }
             "C03" if index % 6 == 5 => {
                 // re-setup histories: the second problem may come with a finer or coarser space
                 with_histories(&mut scn, &mut rng, o.max_iters.min(100), &["thin_wall", "thin_wall", "slivers", "slivers", "shell_door", "balls"], false);
+            }
+            "C04" if index % 24 == 1 => {
+                // PRM multi-query: the first query's start lies marginally OUTSIDE a box bound
+                // (valid for the checker; that query's premise is false, its answer is not
+                // judged). The second query is entirely within the bounds and its goal region
+                // contains the first start: whatever the first query left in the roadmap must
+                // not come back on the second path.
+                let mut rng2 = Xo::new(mix(seed, "C04-prm-oob-start", index));
+                let mut o2 = self.opts(&mut rng2, tier);
+                o2.planner = Some(PlannerKind::PRM);
+                o2.space_kinds = vec!["RV", "RV", "SE2", "SE3"];
+                o2.families = vec!["open", "balls"];
+                o2.max_iters = 120;
+                o2.query_budget = 2e5;
+                o2.goal_sampler = Some(GoalSampler::Fixed);
+                scn = gen::base(&mut rng2, self.id, seed, index, &o2);
+                let b: Vec<(f64, f64)> = match &scn.space {
+                    SpaceSpec::RV { bounds: Some(b), .. } => b.clone(),
+                    SpaceSpec::SE2 { bounds, .. } => bounds[..2].to_vec(),
+                    SpaceSpec::SE3 { bounds, .. } => bounds.clone(),
+                    _ => vec![],
+                };
+                let mut geo = crate::spaces::geo_for(&scn.space).unwrap();
+                geo.set_worlds(&scn.worlds);
+                if !b.is_empty() {
+                    let ext = scn.param("ext").unwrap_or(1.0);
+                    let inb = scn.problems[0].starts[0].clone();
+                    let i = rng2.below(b.len() as u64) as usize;
+                    let eps = (b[i].1 - b[i].0) * rng2.log_range(1e-6, 3e-3);
+                    let up = rng2.chance(0.5);
+                    let (mut s0, mut t1) = (inb.clone(), inb.clone());
+                    s0[i] = if up { b[i].1 + eps } else { b[i].0 - eps };
+                    t1[i] = if up { b[i].1 - eps } else { b[i].0 + eps };
+                    if geo.valid(0, &s0) && geo.valid(0, &t1) && geo.valid(0, &inb) {
+                        let mut start1 = inb.clone();
+                        for _ in 0..50 {
+                            if let Some(c) = geo.sample(&mut rng2) {
+                                if geo.valid(0, &c) {
+                                    start1 = c;
+                                    break;
+                                }
+                            }
+                        }
+                        let mut g1 = scn.problems[0].goal.clone();
+                        g1.target = t1;
+                        g1.radius = g1.radius.max(ext * rng2.range(0.03, 0.15));
+                        g1.comp = None;
+                        g1.cycle = vec![];
+                        g1.sampler = GoalSampler::Fixed;
+                        scn.problems[0].starts[0] = s0;
+                        scn.problems.push(ProblemSpec { starts: vec![start1], goal: g1, world: 0, space: None });
+                        let n = match &scn.calls[1] {
+                            CallSpec::Construct { stalls } => stalls[0].nth,
+                            _ => 40,
+                        };
+                        scn.calls = vec![CallSpec::Setup { problem: 0 }, gen::construct_call(n), solve_budget(1), CallSpec::SetProblem { problem: 1 }, solve_budget(1)];
+                        scn.planner.connection_radius = ext * rng2.range(0.2, 0.6);
+                        scn.params.insert("sealed1".into(), 0.0);
+                        scn.params.insert("start_invalid1".into(), 0.0);
+                        scn.family = format!("prm_first_query_start_out_of_bounds/{}", scn.family);
+                    }
+                }
             }
             "C04" if index % 24 == 13 => {
                 // PRM: setup(P0), set_problem_definition(P1 over its own, tighter space), THEN the
@@ -1086,7 +1176,10 @@ impl Check for C07 {
         if scn.param("perturb") == Some(1.0) && v.is_empty() {
             rep.probe("perturbation_twin");
             let mut s2 = scn.clone();
-            s2.clock.tick_ns = scn.clock.tick_ns * 7 + 3;
+            // every other twin reads a clock that is a thousand times slower (a microsecond
+            // becomes a millisecond): anything inside the planner or the space that measures
+            // time for itself — a sampler with a time budget, say — then behaves differently
+            s2.clock.tick_ns = if scn.clock.tick_ns <= 1000 && scn.index % 2 == 1 { scn.clock.tick_ns * 997 + 3 } else { scn.clock.tick_ns * 7 + 3 };
             s2.clock.cost_valid = vec![17, 0, 3];
             s2.clock.cost_sample = vec![5];
             s2.clock.cost_goal = vec![0, 11];
